@@ -23,7 +23,7 @@ AS_KPHYS, AS_MACHPHYS, AS_KV = 0, 1, 2
 # layouts and files
 # ---------------------------------------------------------------------------------------------
 
-def gen_layout(rng, kind):
+def gen_layout(rng, kind, top=False):
     npfn = rng.randint(6, 20)
     present = set()
     p = rng.choice([0, 1, 2])
@@ -48,6 +48,14 @@ def gen_layout(rng, kind):
         pages[q] = [rng.randrange(1 << 30), nuls]
     lay = {"kind": kind, "npfn": npfn, "pages": {str(k): v for k, v in pages.items()},
            "xlat": rng.random() < 0.5}
+    if kind == "elf" and top:
+        # kernel-virtual addresses in the last pages of the 64-bit address space: the last page
+        # frame sits at 0xfffffffffffff000 and is present (reads may end exactly at 2^64)
+        for q in (npfn - 1,) + ((npfn - 2,) if rng.random() < 0.6 else ()):
+            if str(q) not in lay["pages"]:
+                lay["pages"][str(q)] = [rng.randrange(1 << 30), [] if rng.random() < 0.7 else [rng.randrange(PS)]]
+        lay["kvbase"] = (1 << 64) - npfn * PS
+        lay["xlat"] = False
     if kind == "diskdump":
         lay["methods"] = {str(q): rng.choice(["raw", "zlib", "snappy", "zstd"]) for q in pages}
     return lay
@@ -60,7 +68,7 @@ def layout_pages(lay):
 def build_file(lay, path):
     pages = layout_pages(lay)
     if lay["kind"] == "elf":
-        rf.make_elf(path, pages, VOFF)
+        rf.make_elf(path, pages, lay.get("kvbase", VOFF))
     else:
         data = path + ".data"
         with open(data, "w") as f:
@@ -80,6 +88,8 @@ def build_file(lay, path):
 
 def spaces(lay):
     """(address space, base address of pfn 0) the file is read through"""
+    if "kvbase" in lay:
+        return [(AS_MACHPHYS, 0), (AS_KPHYS, 0), (AS_KV, lay["kvbase"])]
     if lay["kind"] == "elf" or lay.get("xlat"):
         return [(AS_MACHPHYS, 0), (AS_KPHYS, 0), (AS_KV, VOFF)]
     return [(AS_MACHPHYS, 0), (AS_KPHYS, 0), (AS_KV, 0)]
@@ -92,6 +102,11 @@ def drv_mode(lay, m):
 
 def probe_line(lay, path):
     # two pages beyond the end of the layout are probed too
+    if "kvbase" in lay:
+        # the window ends at 2^64; a string that runs off the top continues at address 0
+        its = ["%x:%x:%x:%x" % (a, base, lay["npfn"] + (0 if a == AS_KV else 2), PS) for a, base in spaces(lay)]
+        its.append("%x:0:1:%x" % (AS_KV, PS))
+        return "%s %s %s" % (drv_mode(lay, "P"), path, " ".join(its))
     return "%s %s %s" % (drv_mode(lay, "P"), path, " ".join("%x:%x:%x:%x" % (a, base, lay["npfn"] + 2, PS)
                                         for a, base in spaces(lay)))
 
@@ -109,9 +124,20 @@ def write_sidecar(path, probe_out):
 
 def gen_read_items(rng, lay, n):
     items = []
-    top = (lay["npfn"] + 2) * PS
     for _ in range(n):
         a, base = rng.choice(spaces(lay) + spaces(lay)[:1] * 2)
+        top = (lay["npfn"] + 2) * PS
+        if "kvbase" in lay and rng.random() < 0.6:
+            a, base = AS_KV, lay["kvbase"]
+        if "kvbase" in lay and a == AS_KV:
+            top = lay["npfn"] * PS                       # base + top == 2^64
+            if rng.random() < 0.6:
+                # ends before, one byte before, and exactly at 2^64
+                end = top - rng.choice([0, 0, 0, 1, 1, 2, 16])
+                ln = rng.choice([1, 1, 2, 8, 16, PS - 1, PS, PS + 1, 2 * PS, 2 * PS + 7, rng.randrange(1, 3 * PS)])
+                ln = min(ln, end)
+                items.append("%x:%x:%x" % (a, base + end - ln, ln))
+                continue
         p = rng.randrange(lay["npfn"] + 1)
         b = p * PS
         start = b + rng.choice([0, 0, 1, -1, -2, 2, -PS // 2, rng.randrange(-PS, PS), PS - 1, -PS + 1])
@@ -135,11 +161,16 @@ def gen_read_items(rng, lay, n):
 
 def gen_string_items(rng, lay, n):
     items = []
-    top = (lay["npfn"] + 2) * PS
     pages = {int(k): v for k, v in lay["pages"].items()}
     for _ in range(n):
         a, base = rng.choice(spaces(lay)[:1] * 3 + spaces(lay))
+        top = (lay["npfn"] + 2) * PS
+        if "kvbase" in lay and rng.random() < 0.5:
+            a, base = AS_KV, lay["kvbase"]
         p = rng.randrange(lay["npfn"] + 1)
+        if "kvbase" in lay and a == AS_KV:
+            top = lay["npfn"] * PS
+            p = rng.choice([lay["npfn"] - 1, lay["npfn"] - 1, lay["npfn"] - 2, rng.randrange(lay["npfn"])])
         nuls = pages.get(p, [0, []])[1]
         r = rng.random()
         if nuls and r < 0.5:
@@ -249,8 +280,16 @@ def check_probe(run, lay, pages, probe_out):
     """the library's whole-page answers against the generated layout"""
     for w in probe_out.split():
         a, addr, st, hx = w.split(":")
+        if hx.startswith("short"):
+            return ("kdump_read of the whole page %s:%s succeeds but reports %s of %x bytes"
+                    % (a, addr, hx[5:], PS))
         a, addr = int(a, 16), int(addr, 16)
         base = VOFF if (a == AS_KV and (lay["kind"] == "elf" or lay.get("xlat"))) else 0
+        if "kvbase" in lay and a == AS_KV:
+            if addr == 0:
+                run.count("probe-kv-page-0-%s" % st)
+                continue
+            base = lay["kvbase"]
         if (a == AS_KV and lay["kind"] != "elf" and not lay.get("xlat")) or (a == AS_KPHYS and not lay.get("xlat")):
             run.count("probe-untranslatable" if st != "0" else "probe-translated-unexpectedly")
             continue
@@ -291,7 +330,8 @@ def check(run):
         lays = [rp["layout"]]
     else:
         nfiles = 16 if quick else 240
-        lays = [gen_layout(run.rng, "elf" if i % 2 == 0 else "diskdump") for i in range(nfiles)]
+        lays = [gen_layout(run.rng, "elf" if i % 2 == 0 else "diskdump", top=(i % 4 == 2))
+                for i in range(nfiles)]
     paths = []
     pagesets = {}
     for i, lay in enumerate(lays):
@@ -311,9 +351,11 @@ def check(run):
         write_sidecar(p, o)
         msg = check_probe(run, layouts[p], pagesets[p], o)
         if msg:
-            run.violation("spec", "delivered bytes are not the file's: " + msg,
+            run.violation("spec", "whole-page read of a generated %s file: %s" % (layouts[p]["kind"], msg),
                           {"engine": "read", "layout": layouts[p], "mode": "P", "items": []},
                           found_input=True, signature="read content " + msg[:40])
+    if run.violations:
+        return          # the page source itself is broken; nothing to run the model over
     # cases
     cases = []
     if run.replay_path:
@@ -338,7 +380,7 @@ def check(run):
     if not cases:
         return
     model = core.run_model("read", run.casefile("read-cases.txt", cases))
-    impl, crashes = core.run_impl_lines(exe, run.work, cases, timeout=120 if quick else 1200)
+    impl, crashes = core.run_impl_lines(exe, run.work, cases, timeout=40 if quick else 600)
     if run.replay_path:
         print("model:          " + model[0][:400])
         print("implementation: " + impl[0][:400])
